@@ -15,7 +15,6 @@ EXPLAIN = ('ITS abi module (structural, necessary clauses): (R1) every alloy dec
 NOT_DECIDED = ('that alloy-sol-types\' output is byte-for-byte the Solidity ABI and that validate=true rejects every non-canonical '
                'encoding (T7): the core bit-exactness/canonicity statement is NOT decided by this check.')
 ASSUME = ['T6', 'T7']
-AB = 'interchain_token_service::abi::'
 
 SPEC_STRUCTS = {
     'InterchainTransfer': [('messageType', 'Uint<256, 4>'), ('tokenId', 'FixedBytes<32>'), ('sourceAddress', 'Bytes'), ('destinationAddress', 'Bytes'),
@@ -40,6 +39,25 @@ GUARDED_PANIC = {
     'core::slice::index::<impl core::ops::Index<core::ops::RangeFrom<usize>> for [u8]>::index': 'as_le_slice()[16..] of a 32-byte Uint<256,4>',
     'core::slice::<impl [u8]>::copy_from_slice': '16-byte array from a 16-byte sub-slice',
 }
+
+
+def find_codec(c):
+    """the four codec functions, located by SIGNATURE (not by name): (Message | HubMessage, &Env) -> Result<Bytes, _> and
+    (&Env, &Bytes) -> Result<Message | HubMessage, _>"""
+    out = {}
+    for key, inst in c.inst.items():
+        if inst['crate'] != CN or inst.get('is_closure'):
+            continue
+        L = inst['locals']
+        argc = inst.get('argc', 0)
+        params = L[1:argc + 1]
+        ret = L[0]
+        for ty, tag in (('types::Message', 'Message'), ('types::HubMessage', 'HubMessage')):
+            if argc == 2 and params[0] == ty and ret.startswith('core::result::Result<soroban_sdk::Bytes,'):
+                out.setdefault('<impl types::%s>::abi_encode' % tag, key)
+            if argc == 2 and ret.startswith('core::result::Result<%s,' % ty) and '&soroban_sdk::Bytes' in params and '&soroban_sdk::Env' in params:
+                out.setdefault('<impl types::%s>::abi_decode' % tag, key)
+    return out
 
 
 def short_ty(t):
@@ -78,10 +96,11 @@ def check(P, rep):
     ra = c.adts.get('types::MessageType')
     # graphs of the four codec functions
     fns = {}
+    found = find_codec(c)
     for nm in ('<impl types::Message>::abi_encode', '<impl types::Message>::abi_decode', '<impl types::HubMessage>::abi_encode', '<impl types::HubMessage>::abi_decode'):
-        k = AB + nm
-        if k not in c.inst:
-            rep.floor('codec function ' + nm, 0, 1)
+        k = found.get(nm)
+        if k is None:
+            rep.floor('codec function (by signature) ' + nm, 0, 1)
             continue
         fns[nm] = P.graph_at(CN, k, nm.replace('<impl types::', '').replace('>', ''))
     if len(fns) != 4:
@@ -92,7 +111,7 @@ def check(P, rep):
     # ---- encoders
     for nm, level in (('<impl types::Message>::abi_encode', 'msg'), ('<impl types::HubMessage>::abi_encode', 'hub')):
         g = fns[nm]
-        selfp = ('param', 'self')
+        selfp = g.P(1)
         structs = []
         for r in rets(g):
             for a in alts(r):
@@ -137,7 +156,7 @@ def check(P, rep):
     # ---- decoders
     for nm, level in (('<impl types::Message>::abi_decode', 'msg'), ('<impl types::HubMessage>::abi_decode', 'hub')):
         g = fns[nm]
-        pl = ('param', 'payload')
+        pl = g.P(1)
         builds = []
         saw_err = False
         for r in rets(g):
@@ -275,7 +294,7 @@ def _src_ref(t):
     t = core(t)
     if t[0] == 'field' and (t[2][0] == 'payload' or decode_call(t[2]) is not None):
         return True
-    if t[0] == 'payload' and t[3] == ('param', 'self'):
+    if t[0] == 'payload' and t[3][0] == 'param':
         return True
     return False
 
